@@ -4,6 +4,8 @@
 package acl
 
 import (
+	"strings"
+
 	"github.com/armon/go-radix"
 )
 
@@ -219,7 +221,7 @@ func (p *policyAuthorizer) loadRules(policy *PolicyRules) error {
 
 		intention := sp.Intentions
 		if intention == "" {
-			switch sp.Policy {
+			switch strings.ToLower(sp.Policy) {
 			case PolicyRead, PolicyWrite:
 				intention = PolicyRead
 			default:
@@ -240,7 +242,7 @@ func (p *policyAuthorizer) loadRules(policy *PolicyRules) error {
 
 		intention := sp.Intentions
 		if intention == "" {
-			switch sp.Policy {
+			switch strings.ToLower(sp.Policy) {
 			case PolicyRead, PolicyWrite:
 				intention = PolicyRead
 			default:
